@@ -78,6 +78,12 @@ def cases(tier, seed):
         script = [[[float(rng.choice([2.0, 3.0, 0.5, 5.0, 3.0])) for _ in range(maxiter + 1)] for _ in range(procs)] for _ in range(nblocks)]
         fd = {(int(rng.integers(0, nblocks - 1)), int(rng.integers(0, procs)), int(rng.integers(0, maxiter))) for _ in range(int(rng.integers(1, 3)))}
         cs.append(dict(kind='script_blocks', procs=procs, maxiter=maxiter, nblocks=nblocks, script=script, force_done=sorted(fd), jac=bool(rng.random() < 0.5), _cost=0.6))
+    # mass-matrix sweeper on 2-3 levels (its residual is written out separately for the finest and the coarser levels)
+    for i in range(40 if tier == 'quick' else 800):
+        nlev = 2 + (i % 2)
+        sizes = [int(x) for x in sorted(rng.integers(2, 7, size=3), reverse=True)]
+        cs.append(dict(kind='mass', nlev=nlev, Ms=[int(x) for x in sorted(rng.integers(2, 5, size=3), reverse=True)], sizes=sizes, qt=['RADAU-RIGHT', 'LOBATTO'][i % 2], procs=int(rng.integers(1, 3)),
+                       maxiter=int(rng.integers(1, 4)), dtexp=float(rng.uniform(-2, -0.5)), seed=int(rng.integers(0, 2**31)), _cost=2))
     return cs
 
 
@@ -379,10 +385,74 @@ def run_script_blocks(case, r):
     r.sample = dict(case={k: v for k, v in case.items() if not k.startswith('_')})
 
 
+def run_mass(case, r):
+    """imex_1st_order_mass + base_transfer_mass on a dense hierarchy: at every post_sweep / post_step the residual the level
+    reports must be the norm of Mm(u0 - U_m) + dt (Q F)_m on the finest level and of u0 - Mm U_m + dt (Q F)_m + tau_m on the
+    coarser ones (u0 of a coarse level is restricted with the mass matrix already applied), on the values the level holds"""
+    from pySDC.implementations.controller_classes.controller_nonMPI import controller_nonMPI
+    from pySDC.implementations.sweeper_classes.imex_1st_order_mass import imex_1st_order_mass
+    from pySDC.implementations.transfer_classes.BaseTransfer_mass import base_transfer_mass
+
+    from vf import harness_problems as hp
+    from vf.levelkit import rand_matrix
+    from vf.mon.tracehook import find_hook, make_trace_hook
+    from vf.ref import sdc as ref
+
+    rng = np.random.default_rng(case['seed'])
+    nlev, Ms, sizes = case['nlev'], case['Ms'][: case['nlev']], case['sizes'][: case['nlev']]
+    dt = 10 ** case['dtexp']
+    As, Bs, Mms = [], [], []
+    for n in sizes:
+        As.append(rand_matrix(rng, n, 'stable', False))
+        Bs.append(rand_matrix(rng, n, 'any', False, scale=0.3))
+        X = rng.standard_normal((n, n))
+        Mms.append(np.eye(n) + 0.3 * (X @ X.T) / n)
+    r.key = f"mass/{nlev}/{Ms}/{sizes}/{case['qt']}/p{case['procs']}/k{case['maxiter']}"
+    w = float(rng.uniform(0.5, 3))
+    c0 = [rng.standard_normal(n) for n in sizes]
+    desc = dict(problem_class=hp.DenseMass, problem_params=dict(A=As, B=Bs, Mm=Mms, c0=c0, c1=[c[::-1].copy() for c in c0], w=w), sweeper_class=imex_1st_order_mass,
+                sweeper_params=dict(num_nodes=Ms, quad_type=case['qt'], QI='LU', QE='EE'), level_params=dict(dt=dt, restol=-1), step_params=dict(maxiter=case['maxiter']),
+                space_transfer_class=hp.DenseGalerkinTransfer, space_transfer_params={}, base_transfer_class=base_transfer_mass, base_transfer_params=dict(finter=False))
+    H = make_trace_hook(arrays={'post_sweep', 'post_step'})
+    ctrl = controller_nonMPI(case['procs'], dict(logger_level=50, dump_setup=False, hook_class=[H]), desc)
+    P = ctrl.MS[0].levels[0].prob
+    u0 = P.u_init
+    u0[:] = rng.standard_normal(sizes[0])
+    ctrl.run(u0, 0.0, (2 * case['procs'] - 0.5) * dt)
+    Qs = [np.array(ref.coll(M, 'LEGENDRE', case['qt']).Q) for M in Ms]
+    for ev in find_hook(ctrl, H).events:
+        if ev['cb'] not in ('post_sweep', 'post_step') or 'arr' not in ev:
+            continue
+        lvl = ev['lvl'] or 0
+        a = ev['arr'][0]
+        if a['residual'] is None:
+            continue
+        U = np.array([np.asarray(x).reshape(-1) for x in a['u']])
+        F = np.array([_fullf(x) for x in a['f'][1:]])
+        Mm = Mms[lvl]
+        QF = a['dt'] * (Qs[lvl] @ F)
+        if lvl == 0:
+            d = (Mm @ (U[0][None, :] - U[1:]).T).T + QF
+        else:
+            d = U[0][None, :] - (Mm @ U[1:].T).T + QF
+        have_tau = any(t is not None for t in a['tau'])
+        if have_tau:
+            d = d + np.array([np.zeros_like(U[0]) if t is None else np.asarray(t).reshape(-1) for t in a['tau']])
+            r.count('mass_defects_with_tau')
+        exp = max(float(np.max(np.abs(x))) for x in d)
+        mag = float(np.max(np.abs(Mm))) * float(np.max(np.abs(U))) * len(U[0]) + float(np.max(np.abs(QF)))
+        r.check(abs(a['residual'] - exp) <= 1e-12 * mag + 1e-300, 'residual-is-defect', lambda: f'{r.key}: at {ev["cb"]} (slot {ev["slot"]}, level {lvl}, iter {ev["iter"]}) the mass-matrix sweeper reports residual {a["residual"]} but the defect of the held values ({"with" if have_tau else "without"} tau) has norm {exp}')
+        r.observe('mass_defect_level', f'L{lvl}')
+        r.nontrivial = True
+    r.sample = dict(case={k: v for k, v in case.items() if not k.startswith('_')})
+
+
 def run_case(case):
     r = Result(case)
     if case['kind'] == 'run':
         run_run(case, r)
+    elif case['kind'] == 'mass':
+        run_mass(case, r)
     elif case['kind'] == 'script_blocks':
         run_script_blocks(case, r)
     else:
@@ -401,6 +471,8 @@ def finalize(agg):
     for need in ('post_sweep/L0', 'post_iteration/L0', 'post_step/L0', 'post_sweep/L1'):
         if need not in cbs:
             out.append(f'defect oracle never ran at {need}')
+    if not {'L0', 'L1'} <= set(agg['seen'].get('mass_defect_level', ())) or c.get('mass_defects_with_tau', 0) == 0:
+        out.append('the mass-matrix sweeper never reached the defect oracle on a coarse level with a FAS correction')
     for k, why in (('forced_continuations', 'no forced continuation was injected'), ('forced_stops', 'no forced stop was injected in a multi-block script'), ('scripts_running_past_the_budget', 'no script ran past the iteration budget')):
         if c.get(k, 0) == 0:
             out.append(why)
